@@ -25,6 +25,9 @@ func exemptErrCallee(c ssa.CallInstruction) bool {
 	if o == nil || o.Pkg() == nil {
 		return false
 	}
+	if q := o.Pkg().Path() + "." + o.Name(); q == "fmt.Printf" || q == "fmt.Println" || q == "fmt.Print" {
+		return true // debug output to stdout (the generated parser's wktDebug traces): not a property path
+	}
 	sig, _ := o.Type().(*types.Signature)
 	if sig == nil || sig.Recv() == nil {
 		return false
